@@ -26,4 +26,13 @@ with open(os.path.join(HERE, "SEEDED.md"), "w") as f:
         f.write(f"| {r[0]} | {r[2]} | {r[3]} | {r[4]} | `{r[6]}` |\n")
     caught = sum(1 for r in rows if r[4] != "-")
     f.write(f"\n{len(rows)} changes, {caught} caught.\n")
+# compact table inside DESIGN.md section 13
+dp = os.path.join(HERE, "DESIGN.md")
+d = open(dp).read()
+b, e = d.index("<!-- seeded-table-begin -->"), d.index("<!-- seeded-table-end -->")
+lines = ["| seeded change | caught by | needs, in order to manifest |", "|---|---|---|"]
+for r in rows:
+    lines.append(f"| {r[0]} | {r[4]} | {r[3][:160]} |")
+d = d[:b] + "<!-- seeded-table-begin -->\n" + "\n".join(lines) + "\n" + d[e:]
+open(dp, "w").write(d)
 print(len(rows), "rows")
